@@ -41,8 +41,11 @@ def run_one(pid, tier, root, replay=None, seed=0):
         bad = [f for f in fx if not f["fired"]]
         if bad:
             raise AnalysisError(f"positive fixtures did not fire: {bad}")
+    neg = {}
     if tier == "thorough":
         wres = witness_mod.run_witnesses(pid, mod, root, chk)
+        neg = witness_mod.run_negative(pid, root, chk, repo)
+        chk.note("negative_witnesses", neg)
     chk.note("witnesses", wres)
 
     new, known = chk.split_findings()
@@ -97,9 +100,15 @@ def run_one(pid, tier, root, replay=None, seed=0):
         print(f"  {f.rule} {f.loc} {f.func}: {f.construct}\n    -> {f.message}")
         print(f"VIOLATION property={pid} replay={path}")
         rc = 1
-    if wres["undetected"]:
+    if tier == "thorough":
+        print(f"[{pid}] negative witnesses (behaviour-preserving rewrites of the whole package): "
+              + ", ".join(f"{k}: {'silent' if not v else 'ALARM'}" for k, v in neg.items()))
+    bad_neg = [f"{k}: {x}" for k, v in neg.items() for x in v]
+    if wres["undetected"] or bad_neg:
         for w in wres["undetected"]:
             print(f"ANALYSIS-ERROR: witness not detected (rule vacuous?): {w}")
+        for w in bad_neg:
+            print(f"ANALYSIS-ERROR: rule fires on a behaviour-preserving rewrite (rule brittle): {w}")
         return 2 if rc == 0 else rc
     if rc == 0:
         print(f"[{pid}] held: {cov['discharged']}/{cov['obligations']} obligations, "
